@@ -28,7 +28,7 @@ pub static DEF: CheckDef = CheckDef {
     id: "C13",
     level: "exploration",
     technique: "deterministic component simulation of the admission gates: seeded histories of analyse/add/remove/evict/fail/set-network-size against a multiset model with the stated cap function; counters read back through accessors after every operation; plus a connect-path monitor in the network simulation",
-    runs: (2500, 150000),
+    runs: (6000, 200000),
     generate,
     execute,
     shrink,
